@@ -436,6 +436,18 @@ Definition mdia_children (t : trak) : list str :=
 Definition mhdr_name (h : mhdr) : str :=
   match h with Vmhd => BS "vmhd" | Smhd => BS "smhd" | Sthd => BS "sthd" | Nmhd => BS "nmhd" end.
 
+(* the box tree CreateEmptyTrak builds (names only), with the sample entries added since *)
+Fixpoint join_sp (l : list str) : str :=
+  match l with
+  | [] => []
+  | [x] => x
+  | x :: r => x ++ 32 :: join_sp r
+  end.
+Definition trak_shape (t : trak) : str :=
+  BS "trak{tkhd mdia{mdhd hdlr " ++ (match el_lang t with Some _ => BS "elng " | None => [] end)
+  ++ BS "minf{" ++ mhdr_name (mi_hdr t) ++ BS " dinf{dref{url }} stbl{stsd{" ++ join_sp (map se_name (sd_entries t))
+  ++ BS "} stts stsc stsz stco}}}}".
+
 (* ------------------------------------------------------------------ elng payload (elng.go) *)
 (* EncodeSW after the box header: version+flags (missingFullBox is false for CreateElng), language, 0 *)
 Definition elng_payload (lang : str) : str := [0; 0; 0; 0] ++ lang ++ [0].
